@@ -254,7 +254,7 @@ func c13SnapOne(role string, comp any, inst map[string]any, into *c13Snap, after
 	get := func(n string) reflect.Value {
 		f := rv.FieldByName(n)
 		if !f.IsValid() {
-			panic(fmt.Sprintf("c13: %s has no field %q any more: update the harness tables", role, n))
+			panic(fmt.Sprintf("VERIF-INCONCLUSIVE: c13: %s has no field %q any more: update the harness tables", role, n))
 		}
 		return c13Access(f)
 	}
